@@ -36,7 +36,7 @@
 (* the same matrices through every norm band of the algorithm (the harness *)
 (* supplies ln2, pi/4 and, off the lattice, the scalar exponentials).      *)
 (***************************************************************************)
-EXTENDS Exact, Json, FiniteSets
+EXTENDS ExpFamiliesFast, Json, FiniteSets
 
 CONSTANTS Dims,        \* subset of 2..6
           MaxLen,      \* maximum number of calls on one thread
@@ -65,7 +65,6 @@ NScaleQ == 14     \* quick uses the first 14
 \* nilpotent scale table: dyadic exponent sn
 NilScaleTab == << 0, -1, -2, -3, -5, -7, -10, 1, 2, 3, 4 >>
 
-PR(s,r,md) == (s*s*3 + r*r*5 + r*s*7 + s + 2*r) % md       \* small deterministic pseudo-random numbers
 
 \* spectra: m pattern (real parts, multiples of ln 2) and k pattern (imaginary parts, multiples of pi/4)
 MPat(a,n) == [r \in 1..n |->
@@ -79,96 +78,40 @@ KPat(a,n) == [r \in 1..n |->
                  [] OTHER        -> (IF r = n THEN 1 ELSE 0)]         \* rank one
 NSpecPat == IF Tier = 0 THEN 6 ELSE 12
 
-\* ---- fast exact layer: a matrix is [den |-> D, a |-> [r |-> [c |-> <<a,b,c,d>>]]], value (a + b z + c z^2 + d z^3)/D.
-\* One common positive denominator per matrix, no gcd per operation (TLC evaluates a recursive Gcd slowly); common
-\* factors of 2 are removed per matrix.  Converted to module Exact's scalars <<a,b,c,d,den>> for laws-by-entry and export.
-QZ == <<0,0,0,0>>
-QOne(x) == <<x,0,0,0>>
-QMul(x,y) == << x[1]*y[1] - x[2]*y[4] - x[3]*y[3] - x[4]*y[2],
-                x[1]*y[2] + x[2]*y[1] - x[3]*y[4] - x[4]*y[3],
-                x[1]*y[3] + x[2]*y[2] + x[3]*y[1] - x[4]*y[4],
-                x[1]*y[4] + x[2]*y[3] + x[3]*y[2] + x[4]*y[1] >>
-QAdd(x,y) == <<x[1]+y[1], x[2]+y[2], x[3]+y[3], x[4]+y[4]>>
-QSub(x,y) == <<x[1]-y[1], x[2]-y[2], x[3]-y[3], x[4]-y[4]>>
-QNeg(x) == <<-x[1],-x[2],-x[3],-x[4]>>
-QConj(x) == <<x[1],-x[4],-x[3],-x[2]>>
-QScale(n,x) == <<n*x[1],n*x[2],n*x[3],n*x[4]>>
-QIsZero(x) == x[1] = 0 /\ x[2] = 0 /\ x[3] = 0 /\ x[4] = 0
-QZeta(k) == LET z == Zeta(k) IN <<z[1],z[2],z[3],z[4]>>
-QEven(x) == x[1] % 2 = 0 /\ x[2] % 2 = 0 /\ x[3] % 2 = 0 /\ x[4] % 2 = 0
-QHalf(x) == <<x[1] \div 2, x[2] \div 2, x[3] \div 2, x[4] \div 2>>
-RECURSIVE QSum(_,_)
-QSum(f,n) == IF n = 0 THEN QZ ELSE QAdd(QSum(f,n-1), f[n])
-RECURSIVE DRed(_,_)
-DRed(X,n) == IF X.den % 2 = 0 /\ (\A r \in 1..n : \A c \in 1..n : QEven(X.a[r][c]))
-             THEN DRed([den |-> X.den \div 2, a |-> [r \in 1..n |-> [c \in 1..n |-> QHalf(X.a[r][c])]]], n)
-             ELSE X
-DId(n) == [den |-> 1, a |-> [r \in 1..n |-> [c \in 1..n |-> IF r = c THEN QOne(1) ELSE QZ]]]
-DMul(X,Y,n) == DRed([den |-> X.den * Y.den,
-                     a |-> [r \in 1..n |-> [c \in 1..n |-> QSum([q \in 1..n |-> QMul(X.a[r][q], Y.a[q][c])], n)]]], n)
-DDag(X,n) == [den |-> X.den, a |-> [r \in 1..n |-> [c \in 1..n |-> QConj(X.a[c][r])]]]
-DNeg(X,n) == [den |-> X.den, a |-> [r \in 1..n |-> [c \in 1..n |-> QNeg(X.a[r][c])]]]
-DEq(X,Y,n) == \A r \in 1..n : \A c \in 1..n : QScale(Y.den, X.a[r][c]) = QScale(X.den, Y.a[r][c])
-DIsZero(X,n) == \A r \in 1..n : \A c \in 1..n : QIsZero(X.a[r][c])
-\* U diag(w) U^dagger with w a sequence of 4-tuples over the denominator wden
-DSand(U,w,wden,n) == DRed([den |-> U.den * U.den * wden,
-                           a |-> [r \in 1..n |-> [c \in 1..n |->
-                                   QSum([q \in 1..n |-> QMul(QMul(U.a[r][q], w[q]), QConj(U.a[c][q]))], n)]]], n)
-DFlat(X,n) == [i \in 1..(n*n) |-> LET x == X.a[((i-1) \div n) + 1][((i-1) % n) + 1]
-                                  IN SNorm(<<x[1],x[2],x[3],x[4],X.den>>)]
-
-\* plane rotation (0-based i<j), theta = kt pi/4, delta = kd pi/4 (the matrix RotM of module SUAlgebra), denominator 2:
-\*   2 cos = z^kt + z^-kt ;  2 sin = -i (z^kt - z^-kt)
-DRot(dd,i,j,kt,kd) ==
-  LET c2 == QAdd(QZeta(kt), QZeta(-kt))
-      s2 == QMul(QZeta(6), QSub(QZeta(kt), QZeta(-kt)))
-  IN [den |-> 2, a |-> [r \in 1..dd |-> [c \in 1..dd |->
-        IF r = c THEN (IF r = i+1 \/ r = j+1 THEN c2 ELSE QOne(2))
-        ELSE IF r = i+1 /\ c = j+1 THEN QMul(s2, QZeta(-kd))
-        ELSE IF r = j+1 /\ c = i+1 THEN QNeg(QMul(s2, QZeta(kd)))
-        ELSE QZ]]]
-\* rotation sequences: b = 1 one real plane rotation; 2 chain with phases; 3 chain + closing rotation, mixed angles;
-\* 4 pi/2 rotations (a complex permutation) then one pi/4
-RotSeq(b,n) ==
-  CASE b = 1 -> << <<0, n-1, 1, 0>> >>
-    [] b = 2 -> [q \in 1..(n-1) |-> <<q-1, q, 1, (3*q+1) % 8>>]
-    [] b = 3 -> [q \in 1..n |-> IF q < n THEN <<q-1, q, (IF q % 2 = 1 THEN 1 ELSE 3), (5*q+2) % 8>>
-                                ELSE <<0, n-1, 1, 3>>]
-    [] OTHER -> [q \in 1..n |-> IF q < n THEN <<q-1, q, 2, q % 8>> ELSE <<0, n-1, 1, 5>>]
-RECURSIVE UTo(_,_,_)
-UTo(sq,n,q) == IF q = 0 THEN DId(n)
-               ELSE DMul(DRot(n,sq[q][1],sq[q][2],sq[q][3],sq[q][4]), UTo(sq,n,q-1), n)
-UOf(b,n) == IF b = 0 THEN DId(n) ELSE UTo(RotSeq(b,n), n, Len(RotSeq(b,n)))
 NRotPat == IF Tier = 0 THEN 3 ELSE 4
 
 \* nilpotent part: a = 8*np + sp ; N0 pattern np, conjugation pattern sp
-N0Pat(np,n) == [r \in 1..n |-> [c \in 1..n |->
+N0Pat(np,n) == Mat2(n, LAMBDA r,c :
       IF c <= r THEN 0 ELSE
       CASE np = 0 -> (IF r = 1 /\ c = n THEN 1 ELSE 0)                \* N^2 = 0
         [] np = 1 -> (IF c = r + 1 THEN 1 ELSE 0)                     \* Jordan block
         [] np = 2 -> (PR(r,c,5) - 1)                                  \* full, -1..3
         [] np = 3 -> (IF c = r + 1 THEN r ELSE IF c = r + 2 THEN -1 ELSE 0)
-        [] OTHER  -> (IF (r + c) % 3 = 0 THEN 2 ELSE 0)]]
+        [] OTHER  -> (IF (r + c) % 3 = 0 THEN 2 ELSE 0))
 \* strictly lower integer matrix for the unit lower triangular shear L = I + Ml
-MlPat(sp,n) == [r \in 1..n |-> [c \in 1..n |->
+MlPat(sp,n) == Mat2(n, LAMBDA r,c :
       IF c >= r THEN 0 ELSE
       CASE sp = 1 -> (IF r = c + 1 THEN 1 ELSE 0)
         [] sp = 2 -> (PR(r+1,c,3) - 1)
-        [] OTHER  -> 0]]
-IMul(X,Y,n) == [r \in 1..n |-> [c \in 1..n |->
-      LET RECURSIVE Sm(_)
-          Sm(k) == IF k = 0 THEN 0 ELSE Sm(k-1) + X[r][k]*Y[k][c]
-      IN Sm(n)]]
-IId(n) == [r \in 1..n |-> [c \in 1..n |-> IF r = c THEN 1 ELSE 0]]
-IAdd(X,Y,n) == [r \in 1..n |-> [c \in 1..n |-> X[r][c] + Y[r][c]]]
-INeg(X,n) == [r \in 1..n |-> [c \in 1..n |-> -X[r][c]]]
-IZero(X,n) == \A r \in 1..n : \A c \in 1..n : X[r][c] = 0
-RECURSIVE IPow(_,_,_)
-IPow(X,p,n) == IF p = 0 THEN IId(n) ELSE IMul(IPow(X,p-1,n), X, n)
-\* (I + M)^-1 = sum_p (-M)^p for nilpotent M
-RECURSIVE GeoSum(_,_,_)
-GeoSum(M,p,n) == IF p = 0 THEN IId(n) ELSE IAdd(GeoSum(M,p-1,n), IPow(M,p,n), n)
-Rev(X,n) == [r \in 1..n |-> [c \in 1..n |-> X[n+1-r][n+1-c]]]      \* conjugation by the reversal permutation
+        [] OTHER  -> 0)
+RECURSIVE IDot(_,_,_,_,_)
+IDot(X,Y,r,c,k) == IF k = 0 THEN 0 ELSE IDot(X,Y,r,c,k-1) + X[r][k]*Y[k][c]
+IMul(X,Y,n) == Bind2(X, Y, LAMBDA x,y : Mat2(n, LAMBDA r,c : IDot(x,y,r,c,n)))
+IId(n) == Mat2(n, LAMBDA r,c : IF r = c THEN 1 ELSE 0)
+IAdd(X,Y,n) == Bind2(X, Y, LAMBDA x,y : Mat2(n, LAMBDA r,c : x[r][c] + y[r][c]))
+INeg(X,n) == Bind1(X, LAMBDA x : Mat2(n, LAMBDA r,c : -x[r][c]))
+IZero(X,n) == Bind1(X, LAMBDA x : \A r \in 1..n : \A c \in 1..n : x[r][c] = 0)
+\* <<N^0, N^1, ..., N^p>>
+RECURSIVE IPows(_,_,_)
+IPows(X,p,n) == IF p = 0 THEN <<IId(n)>>
+                ELSE Bind2(IPows(X,p-1,n), X, LAMBDA prev,x : Append(prev, IMul(prev[Len(prev)], x, n)))
+IPow(X,p,n) == Bind1(IPows(X,p,n), LAMBDA ps : ps[p+1])
+\* (I + M)^-1 = sum_{q<=p} M'^q with M' = -M, for nilpotent M
+GeoSum(M,p,n) == Bind1(IPows(M,p,n), LAMBDA ps :
+                   LET RECURSIVE Acc(_)
+                       Acc(q) == IF q = 0 THEN ps[1] ELSE IAdd(Acc(q-1), ps[q+1], n)
+                   IN Acc(p))
+Rev(X,n) == Bind1(X, LAMBDA x : Mat2(n, LAMBDA r,c : x[n+1-r][n+1-c]))      \* conjugation by the reversal permutation
 NilOf(a,n) ==
   LET np == a \div 8  sp == a % 8
       N0 == N0Pat(np,n)
@@ -181,7 +124,6 @@ NilOf(a,n) ==
 NNilPat == IF Tier = 0 THEN {0, 8, 9, 16, 18, 27} ELSE {0, 3, 8, 9, 10, 11, 16, 17, 18, 24, 26, 27, 32, 33}
 Fact5 == 120
 FactOf == <<1,1,2,6,24,120>>          \* FactOf[p+1] = p!
-IToM(X,n) == [r \in 1..n |-> [c \in 1..n |-> SZ(X[r][c])]]
 
 \* shifts x = m ln2 + i k pi/4 for family 4
 ShiftTab == << <<0,1>>, <<1,0>>, <<-1,3>>, <<2,-2>>, <<0,8>>, <<-2,5>> >>
@@ -209,25 +151,25 @@ CK(id) == LET n == DecN(id) IN
           IF DecF(id) \in {1,2} THEN [r \in 1..n |-> KPat(DecA(id),n)[r] * ScaleTab[DecC(id)][1]]
           ELSE IF DecF(id) = 4 THEN [r \in 1..n |-> ShiftTab[DecB(id)][2]] ELSE [r \in 1..n |-> 0]
 CU(id) == IF DecF(id) = 2 THEN UOf(DecB(id), DecN(id)) ELSE DId(DecN(id))
-CNil(id) == IF DecF(id) \in {3,4} THEN NilOf(DecA(id), DecN(id)) ELSE [r \in 1..DecN(id) |-> [c \in 1..DecN(id) |-> 0]]
+CNil(id) == IF DecF(id) \in {3,4} THEN NilOf(DecA(id), DecN(id)) ELSE Mat2(DecN(id), LAMBDA r,c : 0)
 
 CALu(U,id) == DSand(U, [q \in 1..CN(id) |-> QOne(CM(id)[q])], 1, CN(id))                    \* coefficient of ln 2
 CAPu(U,id) == DSand(U, [q \in 1..CN(id) |-> <<0,0,CK(id)[q],0>>], 1, CN(id))                \* coefficient of pi/4 (i k)
-\* NP[p+1] = N^p * 120/p!   (integer matrices), p = 0..n-1
-CNP(id) == LET n == CN(id)  N == CNil(id) IN
-           [p \in 1..n |-> LET Q == IPow(N,p-1,n) IN [r \in 1..n |-> [c \in 1..n |-> Q[r][c] * (Fact5 \div FactOf[p])]]]
+\* NP[p+1] = N^p * 120/p!   (integer matrices), p = 0..n-1, from the explicit nilpotent matrix N
+NPOf(N,n) == Bind1(IPows(N,n-1,n), LAMBDA ps :
+               TLCEval([p \in 1..n |-> Mat2(n, LAMBDA r,c : ps[p][r][c] * (Fact5 \div FactOf[p]))]))
+CNP(id) == NPOf(CNil(id), CN(id))
 \* exact exponential of  sg*mu*A  (sg = 1 or -1, mu = 1 or 2), lattice cases only:
 \*   U diag(2^(sg mu m) z^(sg mu k)) U^dagger  *  sum_p (sg mu)^p N^p / p!
 MBound == 4      \* |mu m| <= MBound : weights are written over the denominator 2^MBound
-ExpExactU(U,id,sg,mu) ==
+RECURSIVE PolySum(_,_,_,_,_,_)
+PolySum(NP,r,c,sg,mu,p) == IF p = 0 THEN 0
+                           ELSE PolySum(NP,r,c,sg,mu,p-1) + (IF (p-1) % 2 = 1 /\ sg = -1 THEN -1 ELSE 1) * (mu^(p-1)) * NP[p][r][c]
+ExpExactU(U,NP,id,sg,mu) ==
   LET n == CN(id)
       W == DSand(U, [q \in 1..n |-> QScale(2^(MBound + sg*mu*CM(id)[q]), QZeta(sg*mu*CK(id)[q]))], 2^MBound, n)
-      NP == CNP(id)
-      P == [den |-> Fact5, a |-> [r \in 1..n |-> [c \in 1..n |->
-              LET RECURSIVE Sm(_)
-                  Sm(p) == IF p = 0 THEN 0 ELSE Sm(p-1) + (IF (p-1) % 2 = 1 /\ sg = -1 THEN -1 ELSE 1) * (mu^(p-1)) * NP[p][r][c]
-              IN QOne(Sm(n))]]]
-  IN IF DecF(id) \in {1,2} THEN W ELSE DMul(W, P, n)
+  IN IF DecF(id) \in {1,2} THEN W
+     ELSE DMul(W, [den |-> Fact5, a |-> Mat2(n, LAMBDA r,c : QOne(PolySum(NP,r,c,sg,mu,n)))], n)
 OnLattice(id) == CSa(id) = 0 /\ CSn(id) = 0
 AntiHerm(id) == DecF(id) \in {1,2} /\ \A r \in 1..CN(id) : CM(id)[r] = 0
 IsDiagCase(id) == DecF(id) = 1 \/ (DecF(id) \in {3,4} /\ IZero(CNil(id), CN(id)))
@@ -241,11 +183,16 @@ Upd(s,n,dp) == [g1  |-> IF dp >= 3 THEN n ELSE s.g1,  g5  |-> IF dp >= 5 THEN n 
                 g7  |-> IF dp >= 7 THEN n ELSE s.g7,  g13 |-> IF dp >= 13 THEN n ELSE s.g13]
 
 \* everything TLC computes about a case, computed once per call and kept in the state (catalogue configuration)
+\* the Hermitian operand transformed by UTransform: an integer pattern of module Exact (dense, complex)
+BOp(n) == [den |-> 1, a |-> Mat2(n, LAMBDA r,c : LET x == Pattern(3,n)[r][c] IN <<x[1],x[2],x[3],x[4]>>)]
 Vals(id) ==
   IF ~WithValues THEN <<>>
-  ELSE LET n == CN(id)  U == CU(id) IN
-       [U  |-> U, AL |-> CALu(U,id), AP |-> CAPu(U,id),
-        E  |-> IF OnLattice(id) THEN ExpExactU(U,id,1,1) ELSE <<>>]
+  ELSE Bind2(CU(id), CNil(id), LAMBDA U,N :
+         Bind1(NPOf(N,CN(id)), LAMBDA NP :
+           Bind1(IF OnLattice(id) THEN ExpExactU(U,NP,id,1,1) ELSE <<>>, LAMBDA E :
+             [U  |-> U, N |-> N, NP |-> NP, AL |-> CALu(U,id), AP |-> CAPu(U,id), E |-> E, B |-> BOp(CN(id)),
+              \* B.UTransform(V, i s) = exp(-isV) B exp(isV) with i s V = A :  E^dagger B E
+              UT |-> IF OnLattice(id) /\ AntiHerm(id) THEN DMul(DDag(E,CN(id)), DMul(BOp(CN(id)), E, CN(id)), CN(id)) ELSE <<>>])))
 
 \* root states: one per group of cases so that TLC's workers share the catalogue (successors of ONE state are
 \* computed by one worker); the call-sequence configuration has the single group 0 = all cases
@@ -271,8 +218,10 @@ EmitCase == PrintT(<<"EDGE", ToJson(
      [id |-> cur', f |-> DecF(cur'), n |-> CN(cur'), sa |-> CSa(cur'), sn |-> CSn(cur'),
       m |-> CM(cur'), k |-> CK(cur'), anti |-> AntiHerm(cur'), lat |-> OnLattice(cur'),
       U |-> DFlat(res'.U,CN(cur')), AL |-> DFlat(res'.AL,CN(cur')), AP |-> DFlat(res'.AP,CN(cur')),
-      AN |-> CNil(cur'), NP |-> CNP(cur'),
-      E |-> IF OnLattice(cur') THEN DFlat(res'.E,CN(cur')) ELSE <<>>])>>)
+      AN |-> res'.N, NP |-> res'.NP,
+      E |-> IF OnLattice(cur') THEN DFlat(res'.E,CN(cur')) ELSE <<>>,
+      B |-> DFlat(res'.B,CN(cur')),
+      UT |-> IF OnLattice(cur') /\ AntiHerm(cur') THEN DFlat(res'.UT,CN(cur')) ELSE <<>>])>>)
 EmitSeq == PrintT(<<"EDGE", ToJson([seq |-> [q \in 1..Len(hist') |-> hist'[q][1]], sc |-> scratch])>>)
 Emit == IF WithValues THEN EmitCase ELSE EmitSeq
 
@@ -283,12 +232,12 @@ TypeOK == /\ Len(hist) <= MaxLen
 \* the result is a function of the case only: whatever the scratch state and the history, the value is Vals(cur).
 \* (checked with values in the catalogue configuration; in the call-sequence configuration res is the empty token and the
 \* statement is carried to the implementation by the replay: same case, different histories, same expected matrix)
-LawHistoryFree == cur # 0 => (WithValues => res.E = (IF OnLattice(cur) THEN ExpExactU(res.U,cur,1,1) ELSE <<>>))
+LawHistoryFree == cur # 0 => (WithValues => res.E = (IF OnLattice(cur) THEN ExpExactU(res.U,res.NP,cur,1,1) ELSE <<>>))
 LawUnitaryU == (cur # 0 /\ WithValues) =>
                   LET n == CN(cur)  U == res.U IN
                   DEq(DMul(U, DDag(U,n), n), DId(n), n) /\ DEq(DMul(DDag(U,n), U, n), DId(n), n)
 LawNilpotent == (cur # 0 /\ WithValues) =>
-                  LET n == CN(cur)  N == CNil(cur) IN
+                  LET n == CN(cur)  N == res.N IN
                   /\ IZero(IPow(N,n,n), n)
                   \* the nilpotent part commutes with the spectral part (family 4: a multiple of I)
                   /\ (DecF(cur) = 4 => \A r \in 1..n : \A c \in 1..n :
@@ -296,16 +245,26 @@ LawNilpotent == (cur # 0 /\ WithValues) =>
                         /\ res.AL.a[r][r] = res.AL.a[1][1] /\ res.AP.a[r][r] = res.AP.a[1][1])
 LawInverse == (cur # 0 /\ WithValues /\ OnLattice(cur)) =>
                   LET n == CN(cur) IN
-                  /\ DEq(DMul(res.E, ExpExactU(res.U,cur,-1,1), n), DId(n), n)
-                  /\ DEq(DMul(res.E, res.E, n), ExpExactU(res.U,cur,1,2), n)
+                  /\ DEq(DMul(res.E, ExpExactU(res.U,res.NP,cur,-1,1), n), DId(n), n)
+                  /\ DEq(DMul(res.E, res.E, n), ExpExactU(res.U,res.NP,cur,1,2), n)
 LawAntiHerm == (cur # 0 /\ WithValues /\ AntiHerm(cur)) =>
                   LET n == CN(cur) IN
                   /\ DIsZero(res.AL, n)
                   /\ DEq(DDag(res.AP,n), DNeg(res.AP,n), n)
                   /\ (OnLattice(cur) => DEq(DMul(res.E, DDag(res.E,n), n), DId(n), n))
+\* UTransform: the result is Hermitian with the same trace and Tr(X^2), and s -> -s undoes it
+DTr(X,n) == LET RECURSIVE T(_)
+                T(q) == IF q = 0 THEN QZ ELSE QAdd(T(q-1), X.a[q][q])
+            IN T(n)
+LawUTransform == (cur # 0 /\ WithValues /\ OnLattice(cur) /\ AntiHerm(cur)) =>
+                  LET n == CN(cur)  X == res.UT  B == res.B IN
+                  /\ DEq(DDag(X,n), X, n)
+                  /\ QScale(B.den, DTr(X,n)) = QScale(X.den, DTr(B,n))
+                  /\ DEq(DMul(res.E, DMul(X, DDag(res.E,n), n), n), B, n)
+                  /\ LET X2 == DMul(X,X,n)  B2 == DMul(B,B,n) IN QScale(B2.den, DTr(X2,n)) = QScale(X2.den, DTr(B2,n))
 \* the spectral part really has the stated eigen-decomposition:  AL U = U diag(m),  AP U = U diag(i k)
 LawSpectral == (cur # 0 /\ WithValues) =>
                   LET n == CN(cur)  U == res.U IN
-                  /\ DEq(DMul(res.AL, U, n), [den |-> U.den, a |-> [r \in 1..n |-> [c \in 1..n |-> QScale(CM(cur)[c], U.a[r][c])]]], n)
-                  /\ DEq(DMul(res.AP, U, n), [den |-> U.den, a |-> [r \in 1..n |-> [c \in 1..n |-> QMul(<<0,0,CK(cur)[c],0>>, U.a[r][c])]]], n)
+                  /\ DEq(DMul(res.AL, U, n), [den |-> U.den, a |-> Mat2(n, LAMBDA r,c : QScale(CM(cur)[c], U.a[r][c]))], n)
+                  /\ DEq(DMul(res.AP, U, n), [den |-> U.den, a |-> Mat2(n, LAMBDA r,c : QMul(<<0,0,CK(cur)[c],0>>, U.a[r][c]))], n)
 =============================================================================
